@@ -191,7 +191,7 @@ def run_workflow_case(kind: str, n: int):
         shutil.rmtree(tmp, ignore_errors=True)
 
 
-def run(ctx):
+def _run(ctx):
     ctx.level = "other"
     ctx.explanation = (
         "copyfile_workflow is applied to enumerated nested output values (two output fields holding lists, tuples, "
@@ -246,7 +246,7 @@ def run(ctx):
             ctx.fail(f"{kinds}@workflow-{kind}", f"C33: workflow {kind}/{n}: {probs[0]}", {"workflow": kind, "n": n, **desc}, domain=dom2)
 
 
-def replay(rec):
+def _replay(rec):
     case = rec["case"]
     if "workflow" in case:
         probs, desc = run_workflow_case(case["workflow"], case["n"])
@@ -257,3 +257,13 @@ def replay(rec):
         print(f"VIOLATION property=C33 replay={rec.get('_path', '')}")
         return 1
     return 0
+
+
+def run(ctx):
+    with T.private_hash_cache():
+        _run(ctx)
+
+
+def replay(rec):
+    with T.private_hash_cache():
+        return _replay(rec)
